@@ -153,7 +153,7 @@ theorem rows_are_evaluations {b : Backend σ} {sp : Space} {obj : Obj} {od : Val
     · intro k hk; rw [hcalls0] at hk; simp at hk
   obtain ⟨cs, d1, cs1, tr, hcs, hfin, T, hP, _⟩ :=
     searchCall_inv (Faithful od sp c d.posL.length d.rows.length d.scoreL.length cs0.mem) (fun _ => True)
-      (fun i d d1 cs cs1 p v e hP f => faithful_step hwf hdet i d d1 cs cs1 p v e hP f) h hn hstart
+      (fun i d d1 cs cs1 p v e hP f _ => faithful_step hwf hdet i d d1 cs cs1 p v e hP f) h hn hstart
   have hf := finishSearch_ok hfin
   have e1 : d'.rows = d1.rows := hf.1
   have e2 : d'.posL = d1.posL := hf.2.1
